@@ -5,7 +5,9 @@ from __future__ import annotations
 from typing import TYPE_CHECKING, cast
 
 import sympy
-from sympy.printing import jscode, julia_code, rust_code
+from sympy.printing import jscode, julia_code
+from sympy.printing.codeprinter import CodePrinter
+from sympy.printing.rust import RustCodePrinter
 from sympy.printing.pycode import pycode
 
 from mxlpy.meta.source_tools import fn_to_sympy
@@ -82,9 +84,31 @@ def _integers_to_floats(expr: sympy.Basic) -> sympy.Basic:
     return expr.func(*(_integers_to_floats(i) for i in expr.args))
 
 
+class _RustPrinter(RustCodePrinter):
+    """Rust printer that keeps the parentheses of a sum inside a product.
+
+    As soon as a product contains a float, sympy's printer wraps the other factors
+    in a type cast that is printed without parentheses: 2.0*k*(x + y) comes out as
+    `2.0*k*x + y`. Integers are floats already here (see _integers_to_floats), so
+    the cast isn't needed.
+    """
+
+    def _print_Mul(self, expr: sympy.Mul) -> str:
+        return CodePrinter._print_Mul(self, expr)  # noqa: SLF001
+
+
 def sympy_to_inline_rust(expr: sympy.Expr) -> str:
     """Create rust code from sympy expression."""
-    return cast(str, rust_code(_integers_to_floats(expr), full_prec=False))
+    # Rust has no operator with the meaning of Python's % (sign of the divisor)
+    expr = expr.replace(sympy.Mod, lambda a, b: a - b * sympy.floor(a / b))
+    expr = _integers_to_floats(expr)
+
+    # What sympy.printing.rust_code does, with the printer above
+    printer = _RustPrinter({"full_prec": False})
+    expr = printer._rewrite_known_functions(expr)  # noqa: SLF001
+    for src_func, dst_func in printer.function_overrides.values():
+        expr = expr.replace(src_func, dst_func)
+    return cast(str, printer.doprint(expr))
 
 
 def sympy_to_inline_julia(expr: sympy.Expr) -> str:
